@@ -221,6 +221,12 @@ structure Options where
   fragment : Str := []
   deriving DecidableEq, Repr, Inhabited
 
+/-- `PartialEq` of `Options` as Rust computes it: component-wise, the query compared *as a map*
+    (for association lists with distinct keys: equal up to order) -/
+def Options.Equiv (a b : Options) : Prop :=
+  a.scheme = b.scheme ∧ a.user = b.user ∧ a.password = b.password ∧ a.host = b.host ∧ a.path = b.path ∧
+  a.fragment = b.fragment ∧ a.query.Perm b.query
+
 /-- `scheme_and_remain`: raw scheme and the `host_and_query` remainder -/
 def splitScheme (uri : Str) : Str × Str :=
   match splitOnce 0x3A uri with
